@@ -4,6 +4,7 @@ import (
 	"fmt"
 	"math/rand"
 	"strconv"
+	"strings"
 
 	"verif/harness/model"
 	"verif/harness/verdict"
@@ -121,7 +122,7 @@ func c02Gen(rng *rand.Rand, m *model.Model, keys []string) []string {
 	case 18, 19:
 		return []string{pick(rng, []string{"GETRANGE", "SUBSTR"}), k, offsetAround(rng, n), offsetAround(rng, n)}
 	case 20, 21:
-		off := strconv.Itoa(rng.Intn(n + 4))
+		off := strconv.Itoa(rng.Intn(n + 10))
 		if rng.Intn(6) == 0 {
 			off = pick(rng, []string{"-1", "536870912", "536870913", "9223372036854775807", "abc", "-9223372036854775808"})
 		}
@@ -213,9 +214,29 @@ func runDiffSequencesN(r *verdict.Run, nseq, perChild, shardBase int, seqLen fun
 				}
 			}
 			n := seqLen(rng)
+			focus, focusKey := 0, ""
 			var sample []string
 			for j := 0; j < n && ok; j++ {
 				args := gen(rng, d.m, universe)
+				if focus > 0 {
+					// the commands right after a RESTORE are aimed at the restored key
+					focus--
+					if i := firstKeyArg(args); i > 0 && i < len(args) && !strings.EqualFold(args[0], "RESTORE") {
+						args[i] = focusKey
+					}
+				}
+				if rng.Intn(20) == 0 {
+					args = provenanceStep(rng, universe)
+					if args[0] == "RESTORE" {
+						focus, focusKey = 4, args[1]
+					}
+					if args[0] == "RESTORE" && rng.Intn(4) > 0 {
+						// mostly from a fresh DUMP of the source (otherwise from whatever was dumped under that name before)
+						if _, ok = d.step([]string{"DUMP", provenanceSource(args)}); !ok {
+							break
+						}
+					}
+				}
 				if len(sample) < 8 {
 					sample = append(sample, cmdString(args))
 				}
@@ -234,3 +255,27 @@ func runDiffSequencesN(r *verdict.Run, nseq, perChild, shardBase int, seqLen fun
 var modelUnspecified = []string{"error message text", "non-canonical integer arguments (+1, 01)", "SET NX GET", "expire times beyond 2^53 ms", "DECRBY -2^63", "hex/inf/nan float forms", "float overflow",
 	"SINTER with a wrong-typed operand after a missing one", "EXPIRE with several condition flags", "KEYS with unterminated classes / empty key names", "SORT BY hash fields / missing weights / nosort on sets / ALPHA ties",
 	"HRANDFIELD/SRANDMEMBER count -2^63", "SCAN family (decided in C17)", "introspection commands"}
+
+// provenanceStep: values also come into being by DUMP + RESTORE (of any type, with and without a deadline, over an
+// existing key or not). Every sequence-driven check mixes these in, so that the commands under test also meet values
+// that were not built by the usual write commands.
+func provenanceSource(restore []string) string { return strings.TrimPrefix(restore[3], DumpOf("")) }
+
+func provenanceStep(rng *rand.Rand, keys []string) []string {
+	src, dst := pick(rng, keys), pick(rng, keys)
+	if rng.Intn(5) < 2 {
+		return []string{"DUMP", src}
+	}
+	ttl := pick(rng, []string{"0", "0", "0", "100000", "1", "4102444800000", "-1"})
+	args := []string{"RESTORE", dst, ttl, DumpOf(src)}
+	if rng.Intn(3) > 0 {
+		args = append(args, "REPLACE")
+	}
+	if ttl == "1" || ttl == "4102444800000" || rng.Intn(3) == 0 {
+		args = append(args, "ABSTTL")
+	}
+	if rng.Intn(15) == 0 {
+		args = append(args, pick(rng, []string{"IDLETIME", "FREQ"}), "5")
+	}
+	return args
+}
